@@ -417,8 +417,10 @@ def outcome(spec, res, ix, fault):
     rows, _, _ = oracles.parse_output(fmt, text)
     if fault and fault['k'] == 'stdin' and fault['v'] == 'garbage':
         return ('OK', 'content-not-judged', '')     # names/records from random bytes: only safety clauses apply
+    alt_rows = []
     if spec['extra_args']:
-        # extra options may have changed the output format or destination: take the reading with most rows
+        # extra options may have changed the output format or destination: other readings are tried
+        # only if the expected one does not give a valid alignment (see below)
         import props_sched
         cands = [text]
         if mode == 'cli':
@@ -427,8 +429,8 @@ def outcome(spec, res, ix, fault):
         for t in cands:
             for f2 in ('fasta', 'msf', 'clu'):
                 r2, _, _ = oracles.parse_output(f2, props_sched._strip_log(t, f2))
-                if len(r2) > len(rows) or (len(r2) == len(rows) and sum(len(x[1]) for x in r2) > sum(len(x[1]) for x in rows)):
-                    rows = r2
+                if len(r2) >= 2:
+                    alt_rows.append(r2)
     stdin_extra = fault and fault['k'] == 'stdin' and fault['v'] in ('data', 'garbage')
     if spec['cls'] == 'wellformed' and spec['fmt_in'] == 'fasta' and not stdin_extra and not (fault and fault['k'] == 'read') and not spec['extra_args']:
         pr = oracles.integrity(spec['wl']['names'], spec['wl']['seqs'], rows, check_names=True)
@@ -452,6 +454,11 @@ def outcome(spec, res, ix, fault):
     if stdin_extra:
         extra = b'\n>extra1\nACGTTGCA\n>extra2\nACGTTGCAA\n>extra1\nMKVLAAGIVG\n>extra2\nMKVLAAGIVGW\n' + bytes(random.Random(len(data)).randrange(256) for _ in range(300))
     why = loose_valid(rows, extra + data + data)
+    if why:
+        for r2 in alt_rows:
+            if loose_valid(r2, extra + data + data) is None:
+                why = None
+                break
     if why and (any(n == b'' for n, _ in rows) or (fmt != 'fasta' and b'\n ' in text and spec['cls'] != 'wellformed')):
         # garbage input made kalign read a sequence without a name; a nameless row cannot be told from
         # padding in msf/clu, so the content oracle is not applied (memory safety etc. still are)
